@@ -39,7 +39,7 @@ META = {
     "assumptions": ["eval(f'child_values[0] {symbol} child_values[1]') is the only generic combination site",
                     "operator trees are built only through Operator's overloads / constructor calls with operation="],
 }
-MIN_INSTANCES = {"R1": 6, "R2": 12, "R3": 6, "R4": 4, "R5": 4, "R6": 1, "R7": 1}
+MIN_INSTANCES = {"R1": 6, "R2": 12, "R3": 6, "R4": 4, "R5": 4, "R6": 1, "R7": 1, "R8": 4, "R9": 1}
 
 
 def _ops_member(node: ast.AST) -> str | None:
@@ -375,6 +375,69 @@ def run(ctx: Ctx) -> None:
               facts={"class_attrs": sorted(body_names)})
 
 
+    # ---------------- R8 indices are never defaulted by truthiness -----------------------------------
+    # time_step_index / iterate_index: None = "current", 0 = the most recent stored value.  `idx or default` conflates the
+    # two (0 is falsy), so a variable one step back evaluates as the current one (values AND identity Jacobian).
+    n8 = 0
+    for rel in sorted(r_ for r_ in ctx.repo.all_py() if r_.startswith(AD_DIR + "/")):
+        m8 = ctx.repo.module(rel)
+        for q8, fn8 in m8.functions():
+            for st in walk_local(fn8):
+                if not isinstance(st, (ast.Assign, ast.AnnAssign)) or getattr(st, "value", None) is None:
+                    continue
+                tg = st.targets if isinstance(st, ast.Assign) else [st.target]
+                names = [u(t) for t in tg]
+                if not any(n_.split(".")[-1].strip("_").endswith(("time_step_index", "iterate_index")) for n_ in names):
+                    continue
+                n8 += 1
+                v = st.value
+                bad = isinstance(v, ast.BoolOp) and isinstance(v.op, ast.Or) and any(
+                    "index" in u(x) or "indices" in u(x) for x in v.values[:-1])
+                if isinstance(v, ast.IfExp) and not isinstance(v.test, ast.Compare) and ("index" in u(v.test) or "indices" in u(v.test)) \
+                        and not (isinstance(v.test, ast.Call)):
+                    bad = True  # `idx if idx else -1`
+                ctx.check("R8", not bad, m8, q8, st,
+                          f"`{names[0]}` is defaulted by truthiness (`{u(v)[:80]}`): index 0 (one step back) is falsy and is replaced by "
+                          f"the default meaning 'current', so the operator is parsed as the current variable",
+                          construct=f"{q8}: {names[0]} defaulted by truthiness")
+    if n8 == 0:
+        raise AnchorError("no assignment to a time_step_index / iterate_index found in the ad package")
+
+    # ---------------- R9 ADmethod binds the instance by value ---------------------------------------
+    # ADmethod is a descriptor shared by all instances of the decorated class; __get__ overwrites self._bound_to on every
+    # attribute access.  The callable handed to the operator must therefore capture the instance at wrap time
+    # (functools.partial / default argument / local snapshot); a nested function or lambda that reads self._bound_to when it is
+    # CALLED evaluates with whichever instance touched the method last.
+    try:
+        opf = ctx.repo.module(AD_DIR + "/operator_functions.py")
+        adm = opf.cls("ADmethod")
+    except AnchorError:
+        adm = None
+    if adm is not None:
+        mm = methods(adm)
+        rebinding = [n_ for n_, f_ in mm.items() if n_ != "__init__" and any(
+            isinstance(t, ast.Attribute) and u(t) == "self._bound_to" for st in walk_local(f_) if isinstance(st, ast.Assign) for t in st.targets)]
+        if rebinding:
+            for n_, f_ in mm.items():
+                late = []
+                for inner in ast.walk(f_):
+                    if inner is f_ or not isinstance(inner, (ast.FunctionDef, ast.Lambda)):
+                        continue
+                    body_nodes = inner.body if isinstance(inner.body, list) else [inner.body]
+                    defaults = list(inner.args.defaults) + [d for d in inner.args.kw_defaults if d is not None]
+                    for b in body_nodes:
+                        for x in ast.walk(b):
+                            if isinstance(x, ast.Attribute) and u(x) == "self._bound_to" and not any(x is d_ or x in list(ast.walk(d_)) for d_ in defaults):
+                                late.append(x)
+                reads = [x for x in ast.walk(f_) if isinstance(x, ast.Attribute) and u(x) == "self._bound_to" and isinstance(x.ctx, ast.Load)]
+                if not reads:
+                    continue
+                ctx.check("R9", not late, opf, f"ADmethod.{n_}", late[0] if late else f_,
+                          f"a nested function/lambda reads `self._bound_to` when called; the descriptor is shared and {rebinding} rebinds it on "
+                          f"every attribute access, so an operator built from instance A is evaluated with the instance that accessed the "
+                          f"method last", construct=f"ADmethod.{n_}: instance captured by value")
+
+
 def _enclosing(mod, node) -> str:
     best = ("<module>", -1)
     for q, n in mod.qualnames().items():
@@ -697,6 +760,15 @@ def _m(name, old, new, rule, file=OPS, control=False, count=1):
 
 
 MUTANTS = [
+    _m("seed-md-variable-index-or-default", "        self._time_step_index = -1 if time_indices[0] is None else time_indices[0]\n",
+       "        self._time_step_index = time_indices[0] or -1\n", "R8"),
+    _m("seed-md-variable-iterate-index-ifexp-truthiness", "            self._iterate_index = -1 if iter_indices[0] is None else iter_indices[0]\n",
+       "            self._iterate_index = iter_indices[0] if iter_indices[0] else -1\n", "R8"),
+    _m("seed-admethod-late-binding-closure", "            operator_func = partial(self._func, self._bound_to)\n",
+       "            def operator_func(*func_args, **func_kwargs):\n                return self._func(self._bound_to, *func_args, **func_kwargs)\n",
+       "R9", file=AD_DIR + "/operator_functions.py"),
+    _m("admethod-late-binding-lambda", "            operator_func = partial(self._func, self._bound_to)\n",
+       "            operator_func = lambda *a, **k: self._func(self._bound_to, *a, **k)\n", "R9", file=AD_DIR + "/operator_functions.py"),
     _m("seed-rpow-unpacked-not-swapped", "        children = self._parse_other(other)\n        # Self is the right operand: swap the children and use the forward operation,\n        # as is done in __rsub__.\n        children = [children[1], children[0]]\n        return Operator(\n            children=children,\n            operation=Operations.pow,",
        "        exponent, base = self._parse_other(other)\n        children = [exponent, base]\n        return Operator(\n            children=children,\n            operation=Operations.pow,", "R2"),
     _m("seed-mdvar-previous-global-order", "                    return vals[np.hstack(dofs, dtype=int)] if dofs else np.array([])",
